@@ -1,9 +1,9 @@
 from .. import scans
-from .common import CLOSED_HYDRO, generic_replay
+from .common import fams, generic_replay, PATTERNS
 
 
 def run(tier):
-    return scans.scan_check("C01", ("PDE.",), {"PDE"}, dict(CLOSED_HYDRO), tier)
+    return scans.scan_check("C01", ("PDE.",), {"PDE"}, fams({'PDE'}), tier, require_patterns=PATTERNS)
 
 
 def replay(path):
